@@ -384,6 +384,22 @@ def fam_meta(seed, n, dirs=("fwd", "rev"), gated=True):
         cfg = dict(cfg, tunnelMD={"authorization": ["Bearer tunnel-secret"], "k1": ["tunnel"]})
         out.append(scenario("meta-%s-%d" % (cname, i), cfg, [rs, rpc_script(2, "unary_invoke", [3], resp=2)], pol,
                             meta={"family": "meta", "done": [1, 2]}))
+    # the handler returns a status without reading the request (as an interceptor that refuses
+    # a call does), while the caller is still sending a request larger than the window
+    for cname, cfg in cfgs(dirs, ("fc", "nofc")):
+        for shape in ("unary_invoke", "cstream", "bidi"):
+            for n in (40, payload_for_wire(W + CH)):
+                for st in ((16, "no", 0), (0, "", 0)):
+                    new = op("invoke" if shape == "unary_invoke" else "new", shape=("unary" if shape == "unary_invoke" else shape))
+                    ret = op("ret", code=st[0], msg=st[1], det=st[2])
+                    if shape == "unary_invoke":
+                        new["n"] = n
+                        ret["n"] = 3
+                        rs = {"rpc": 1, "c": {"m": [new]}, "s": {"m": [ret]}}
+                    else:
+                        rs = {"rpc": 1, "c": {"m": [new, op("send", n=n), op("half"), op("recv"), op("recv")]}, "s": {"m": [ret]}}
+                    out.append(scenario("meta-early-return-%s-%s-%d-c%d" % (cname, shape, n, st[0]), cfg, [rs],
+                                        {"kind": "lazy", "seed": seed, "max": 300}, meta={"family": "meta", "done": [1]}))
     # call options without any outgoing metadata (per-RPC credentials alone)
     for cname, cfg in cfgs(dirs, ("fc",)):
         for shape in ("unary_invoke", "bidi"):
@@ -467,4 +483,293 @@ def fam_gates(seed, maxk, gates=None, dirs=("fwd", "rev"), faults=("none", "canc
                         p.update({"faults": [{"at": -2, "step": {"do": "close"}}]})
                     out.append(scenario("gate-%s-%s-%s-%s-%s" % (g, wname, d, pol, fault), cfg, copy.deepcopy(rpcs), p,
                                         meta={"family": "gates", "gate": g, "done": [r["rpc"] for r in rpcs] if fault == "none" else []}))
+    return out
+
+
+# ---------------------------------------------------------------------------
+# raw (hostile / legacy) peers
+
+
+def raw(kind, sid, **kw):
+    f = {"kind": kind, "sid": sid}
+    f.update(kw)
+    return {"do": "raw", "frame": f}
+
+
+def dl(d, n=1):
+    return {"do": "deliver", "dir": d, "n": n}
+
+
+def cop(rpc, name, act="m", **kw):
+    d = {"do": "op", "end": "c", "rpc": rpc, "act": act, "op": name}
+    d.update(kw)
+    return d
+
+
+def sop(rpc, name, act="m", **kw):
+    d = {"do": "op", "end": "s", "rpc": rpc, "act": act, "op": name}
+    d.update(kw)
+    return d
+
+
+def new_frame(sid, rpc, shape="bidi", method=None, rev=1, win=W, md=None):
+    m = {"x-rpc": [str(rpc)]}
+    if md:
+        m.update(md)
+    meth = method if method is not None else {"bidi": "/verif.Svc/Bidi", "unary": "/verif.Svc/Unary",
+                                               "cstream": "/verif.Svc/CStream", "sstream": "/verif.Svc/SStream"}[shape]
+    return raw("new", sid, method=meth, rev=rev, win=win, md=m)
+
+
+def data_frames(sid, rpc, side, idx, wire, chunks=None):
+    """frames of one message of the given wire size (optionally split at the given lengths)"""
+    out = []
+    off = 0
+    lens = chunks or [wire]
+    for i, ln in enumerate(lens):
+        out.append(raw("msg" if i == 0 else "more", sid, size=wire, len=ln, rpc=rpc, side=side, idx=idx, off=off))
+        off += ln
+    return out
+
+
+C2S_DEVIATIONS = [
+    ("dup-new-live", lambda: [new_frame(1, 1)]),
+    ("new-sid0", lambda: [new_frame(0, 7)]),
+    ("new-negative", lambda: [new_frame(-5, 7)]),
+    ("new-skip-ahead", lambda: [new_frame(9, 7, shape="unary")]),
+    ("new-unknown-method", lambda: [new_frame(5, 7, method="/verif.Svc/Nope")]),
+    ("new-unknown-service", lambda: [new_frame(5, 7, method="/nope.Svc/Unary")]),
+    ("new-empty-method", lambda: [new_frame(5, 7, method="")]),
+    ("new-malformed-method", lambda: [new_frame(5, 7, method="nomethod")]),
+    ("new-slash-method", lambda: [new_frame(5, 7, method="/")]),
+    ("new-bad-revision", lambda: [new_frame(5, 7, rev=7)]),
+    ("new-window-zero", lambda: [new_frame(5, 7, shape="unary", win=0)]),
+    ("msg-unknown-sid", lambda: data_frames(99, 0, "c", 0, 8)),
+    ("msg-sid0", lambda: data_frames(0, 0, "c", 0, 8)),
+    ("msg-negative-sid", lambda: data_frames(-3, 0, "c", 0, 8)),
+    ("more-without-envelope", lambda: [raw("more", 1, len=4)]),
+    ("envelope-then-envelope", lambda: [raw("msg", 1, size=20, len=5), raw("msg", 1, size=6, len=6)]),
+    ("len-gt-size", lambda: [raw("msg", 1, size=4, len=9)]),
+    ("overrun-by-one", lambda: [raw("msg", 1, size=W + 1, len=CH)] + [raw("more", 1, len=CH) for _ in range(3)] + [raw("more", 1, len=1)]),
+    ("overrun-big-frame", lambda: [raw("msg", 1, size=3 * W, len=W + 1)]),
+    ("overrun-many-windows", lambda: [raw("msg", 1, size=4 * W, len=CH)] + [raw("more", 1, len=CH) for _ in range(9)]),
+    ("oversize-chunk", lambda: [raw("msg", 1, size=20000, len=20000)]),
+    ("half-twice", lambda: [raw("half", 1), raw("half", 1)]),
+    ("half-unknown-sid", lambda: [raw("half", 99)]),
+    ("cancel-twice", lambda: [raw("cancel", 1), raw("cancel", 1)]),
+    ("cancel-unknown-sid", lambda: [raw("cancel", 99)]),
+    ("wu-zero", lambda: [raw("wu", 1, len=0)]),
+    ("wu-huge", lambda: [raw("wu", 1, len=2147418110)]),
+    ("wu-unknown-sid", lambda: [raw("wu", 99, len=5)]),
+    ("junk-live", lambda: [raw("junk", 1)]),
+    ("junk-unknown-sid", lambda: [raw("junk", 99)]),
+    ("junk-disposed", lambda: [raw("junk", 0)]),
+    ("second-message-unary", lambda: data_frames(2, 2, "c", 1, 9)),
+]
+
+
+def fam_hostile_srv(seed, n=0, dirs=("fwd", "rev"), modes=("neg",)):
+    """raw tunnel client against the real tunnel server: every single-frame (or
+    short multi-frame) deviation at every position of a valid conversation with two
+    streams (one bidi, one unary bystander)"""
+    rng = random.Random(seed)
+    out = []
+    conv = [new_frame(1, 1), new_frame(2, 2, shape="unary")] + data_frames(1, 1, "c", 0, 12) + data_frames(2, 2, "c", 0, 9) \
+        + [raw("half", 2), raw("half", 1)]
+    for d in dirs:
+        for mode in modes:
+            for dname, mk in C2S_DEVIATIONS:
+                for pos in range(len(conv) + 1):
+                    if n and rng.random() > n / 100.0:
+                        continue
+                    frames = conv[:pos] + mk() + conv[pos:]
+                    steps = copy.deepcopy(PREFIX)
+                    for f in frames:
+                        steps += [copy.deepcopy(f), dl("c2s")]
+                    rpcs = [{"rpc": 1, "s": {"m": [op("recv"), op("recv"), op("send", n=3), op("ret", code=0)]}},
+                            {"rpc": 2, "s": {"m": [op("recv"), op("ret", code=0, n=4)]}},
+                            {"rpc": 7, "s": {"m": [op("recv"), op("ret", code=0, n=1)]}}]
+                    out.append({"name": "hostile-srv-%s-%s-%s-p%d" % (d, mode, dname, pos),
+                                "cfg": {"dir": d, "rawCli": mode}, "steps": steps, "rpcs": rpcs,
+                                "policy": {"kind": "eager", "seed": seed, "max": 200},
+                                "meta": {"family": "hostile-srv", "deviation": dname}})
+    return out
+
+
+S2C_DEVIATIONS = [
+    ("settings-midstream", lambda: [raw("settings", 1, win=W, revs=[0, 1])]),
+    ("settings-again", lambda: [raw("settings", -1, win=W, revs=[0, 1])]),
+    ("unknown-sid", lambda: [raw("hdr", 99)]),
+    ("data-unknown-sid", lambda: [raw("msg", 99, size=4, len=4)]),
+    ("close-unknown-sid", lambda: [raw("close", 99, code=0)]),
+    ("sid0", lambda: [raw("hdr", 0)]),
+    ("negative-sid", lambda: [raw("msg", -7, size=4, len=4)]),
+    ("hdr-twice", lambda: [raw("hdr", 1, md={"x": ["1"]}), raw("hdr", 1, md={"y": ["2"]})]),
+    ("close-twice", lambda: [raw("close", 1, code=0), raw("close", 1, code=5, msg="second")]),
+    ("more-without-envelope", lambda: [raw("more", 1, len=4)]),
+    ("envelope-then-envelope", lambda: [raw("msg", 1, size=20, len=5), raw("msg", 1, size=6, len=6)]),
+    ("len-gt-size", lambda: [raw("msg", 1, size=4, len=9)]),
+    ("overrun-by-one", lambda: [raw("msg", 1, size=W + 1, len=CH)] + [raw("more", 1, len=CH) for _ in range(3)] + [raw("more", 1, len=1)]),
+    ("overrun-big-frame", lambda: [raw("msg", 1, size=3 * W, len=W + 1)]),
+    ("overrun-many-windows", lambda: [raw("msg", 1, size=4 * W, len=CH)] + [raw("more", 1, len=CH) for _ in range(9)]),
+    ("wu-zero", lambda: [raw("wu", 1, len=0)]),
+    ("wu-huge", lambda: [raw("wu", 1, len=2147418110)]),
+    ("wu-unknown", lambda: [raw("wu", 99, len=3)]),
+    ("junk-live", lambda: [raw("junk", 1)]),
+    ("junk-unknown", lambda: [raw("junk", 99)]),
+    ("two-responses-unary", lambda: data_frames(2, 2, "s", 0, 7) + data_frames(2, 2, "s", 1, 7)),
+    ("close-without-response-unary", lambda: [raw("close", 2, code=0)]),
+]
+
+
+def fam_hostile_cli(seed, n=0, dirs=("fwd", "rev")):
+    """raw tunnel server against the real tunnel client: deviations at every
+    position of a valid server conversation (settings, then responses for a bidi
+    stream and a unary bystander)"""
+    rng = random.Random(seed)
+    out = []
+    conv = [raw("hdr", 1, md={"h": ["1"]})] + data_frames(1, 1, "s", 0, 8) + [raw("hdr", 2)] + data_frames(2, 2, "s", 0, 7) \
+        + [raw("close", 2, code=0, md={"t": ["2"]}), raw("close", 1, code=0, md={"t": ["1"]})]
+    for d in dirs:
+        for dname, mk in S2C_DEVIATIONS:
+            for pos in range(len(conv) + 1):
+                if n and rng.random() > n / 100.0:
+                    continue
+                frames = conv[:pos] + mk() + conv[pos:]
+                steps = [{"do": "open"}, raw("settings", -1, win=W, revs=[0, 1]), dl("s2c"),
+                         cop(1, "new", shape="bidi", opts=["hdr", "trl"]), cop(1, "send", n=10), cop(1, "half"),
+                         cop(2, "invoke", shape="unary", n=5), {"do": "drain"}]
+                if pos % 2 == 1 and not dname.startswith("overrun"):
+                    steps.append(cop(1, "recv", act="a"))   # a reader already blocked when the frames arrive
+                for f in frames:
+                    steps += [copy.deepcopy(f), dl("s2c")]
+                steps += [cop(1, "recv", act="a"), cop(1, "recv", act="a"), cop(1, "trailer"), {"do": "drain"}]
+                out.append({"name": "hostile-cli-%s-%s-p%d" % (d, dname, pos),
+                            "cfg": {"dir": d, "rawSrv": "neg"}, "steps": steps,
+                            "meta": {"family": "hostile-cli", "deviation": dname}})
+    return out
+
+
+def fam_shape(seed, n=0, dirs=("fwd", "rev")):
+    """call-shape enforcement: (a) applications that send twice on a non-streaming
+    side, (b) a raw caller sending 0..3 request messages (split in chunks, before
+    and after half-close) to each of the four shapes, (c) a raw server sending
+    0..3 responses to each shape"""
+    out = []
+    # (a) real applications
+    for cname, cfg in cfgs(dirs, ("fc", "nofc")):
+        for shape in ("unary", "sstream"):
+            c = [op("new", shape=shape), op("send", n=5), op("send", n=6), op("send", n=7), op("half"), op("recv"), op("recv")]
+            srv = [op("recv"), op("send", n=3), op("ret", code=0)] if shape == "sstream" else [op("recv"), op("ret", code=0, n=4)]
+            out.append(scenario("shape-app-c2send-%s-%s" % (shape, cname), cfg, [{"rpc": 1, "c": {"m": c}, "s": {"m": srv}}],
+                                {"kind": "eager", "seed": seed, "max": 200}, meta={"family": "shape"}))
+        for shape in ("cstream",):
+            c = [op("new", shape=shape), op("send", n=5), op("half"), op("recv"), op("recv")]
+            srv = [op("recv"), op("recv"), op("send", n=3), op("send", n=4), op("send", n=5), op("ret", code=0)]
+            out.append(scenario("shape-app-s2send-%s-%s" % (shape, cname), cfg, [{"rpc": 1, "c": {"m": c}, "s": {"m": srv}}],
+                                {"kind": "eager", "seed": seed, "max": 200}, meta={"family": "shape"}))
+    # (b) raw caller
+    for d in dirs:
+        for shape in ("unary", "cstream", "sstream", "bidi"):
+            for k in range(0, 4):
+                for split in (False, True):
+                    for after_half in (False, True):
+                        frames = [new_frame(1, 1, shape=shape)]
+                        msgs = []
+                        for i in range(k):
+                            msgs.append(data_frames(1, 1, "c", i, 12, chunks=[5, 7] if split else None))
+                        pre = sum(msgs[:max(0, k - 1)] if after_half else msgs, [])
+                        post = sum(msgs[max(0, k - 1):], []) if after_half else []
+                        frames += pre + [raw("half", 1)] + post
+                        steps = copy.deepcopy(PREFIX)
+                        for f in frames:
+                            steps += [copy.deepcopy(f), dl("c2s")]
+                        srv = [op("recv"), op("recv"), op("recv"), op("recv")] + ([op("send", n=3)] if shape != "unary" else []) + [op("ret", code=0, n=4)]
+                        out.append({"name": "shape-rawcli-%s-%s-k%d-%s-%s" % (d, shape, k, "split" if split else "whole", "afterhalf" if after_half else "before"),
+                                    "cfg": {"dir": d, "rawCli": "neg"}, "steps": steps,
+                                    "rpcs": [{"rpc": 1, "s": {"m": srv}}], "policy": {"kind": "eager", "seed": seed, "max": 100},
+                                    "meta": {"family": "shape"}})
+    # (c) raw server
+    for d in dirs:
+        for shape in ("unary", "cstream", "sstream", "bidi"):
+            for k in range(0, 4):
+                for split in (False, True):
+                    for code in (0, 5):
+                        resp = [raw("hdr", 1)]
+                        for i in range(k):
+                            resp += data_frames(1, 1, "s", i, 11, chunks=[4, 7] if split else None)
+                        resp += [raw("close", 1, code=code, msg="x" if code else "")]
+                        steps = [{"do": "open"}, raw("settings", -1, win=W, revs=[0, 1]), dl("s2c")]
+                        if shape == "unary":
+                            steps += [cop(1, "invoke", shape="unary", n=5)]
+                        else:
+                            steps += [cop(1, "new", shape=shape), cop(1, "send", n=5), cop(1, "half")]
+                        steps += [{"do": "drain"}]
+                        for f in resp:
+                            steps += [copy.deepcopy(f), dl("s2c")]
+                        if shape != "unary":
+                            steps += [cop(1, "recv"), cop(1, "recv"), cop(1, "recv"), cop(1, "recv")]
+                        steps += [{"do": "drain"}]
+                        out.append({"name": "shape-rawsrv-%s-%s-k%d-%s-c%d" % (d, shape, k, "split" if split else "whole", code),
+                                    "cfg": {"dir": d, "rawSrv": "neg"}, "steps": steps, "meta": {"family": "shape"}})
+    return out
+
+
+def fam_neg(seed, n=0, dirs=("fwd", "rev")):
+    """revision negotiation: every combination of {enabled, disabled, legacy peer}
+    on both ends, every settings message a raw server can send, missing settings"""
+    out = []
+    wl = [rpc_script(1, "bidi", [payload_for_wire(CH + 9), 0], [payload_for_wire(CH + 3)], hdrs=["h1"], trls=["t1"]),
+          rpc_script(2, "unary_invoke", [12], resp=3), rpc_script(3, "cstream", [3, 4], [5]), rpc_script(4, "sstream", [3], [4, 5])]
+    # real x real
+    for cname, cfg in cfgs(dirs, ("fc", "clinofc", "srvnofc", "nofc")):
+        for pol in ("eager", "lazy"):
+            out.append(scenario("neg-real-%s-%s" % (cname, pol), cfg, copy.deepcopy(wl), {"kind": pol, "seed": seed, "max": 600},
+                                meta={"family": "neg", "done": [1, 2, 3, 4]}))
+    # legacy caller (does not advertise) against the real server, with and without the server's flow control
+    for d in dirs:
+        for srvnofc in (False, True):
+            frames = [new_frame(1, 1, rev=0, win=0)] + data_frames(1, 1, "c", 0, 12) + [raw("half", 1),
+                      new_frame(2, 2, shape="unary", rev=0, win=0)] + data_frames(2, 2, "c", 0, 9) + [raw("half", 2)]
+            steps = [{"do": "open"}, {"do": "drain"}]
+            for f in frames:
+                steps += [copy.deepcopy(f), dl("c2s")]
+            out.append({"name": "neg-legacy-cli-%s-%s" % (d, "srvnofc" if srvnofc else "srvfc"),
+                        "cfg": {"dir": d, "rawCli": "legacy", "srvNoFC": srvnofc}, "steps": steps,
+                        "rpcs": [{"rpc": 1, "s": {"m": [op("recv"), op("recv"), op("send", n=payload_for_wire(W + 5)), op("ret", code=0)]}},
+                                 {"rpc": 2, "s": {"m": [op("recv"), op("ret", code=0, n=4)]}}],
+                        "policy": {"kind": "eager", "seed": seed, "max": 200}, "meta": {"family": "neg"}})
+    # legacy server (does not advertise) against the real caller
+    for d in dirs:
+        for clinofc in (False, True):
+            resp = [raw("hdr", 1)] + data_frames(1, 1, "s", 0, 11) + [raw("close", 1, code=0)]
+            steps = [{"do": "open"}, cop(1, "new", shape="bidi"), cop(1, "send", n=payload_for_wire(W + CH)), cop(1, "half"), {"do": "drain"}]
+            for f in resp:
+                steps += [copy.deepcopy(f), dl("s2c")]
+            steps += [cop(1, "recv"), cop(1, "recv"), {"do": "drain"}]
+            out.append({"name": "neg-legacy-srv-%s-%s" % (d, "clinofc" if clinofc else "clifc"),
+                        "cfg": {"dir": d, "rawSrv": "legacy", "cliNoFC": clinofc}, "steps": steps, "meta": {"family": "neg"}})
+    # every settings message
+    revlists = [[], [0], [1], [0, 1], [1, 0], [2], [0, 2], [2, 1], [1, 1], [0, 0, 1], [7, 8]]
+    for d in dirs:
+        for clinofc in (False, True):
+            for revs in revlists:
+                for win in (W, 0, 5):
+                    for sid in (-1, 0, 1):
+                        if (win != W or sid != -1) and revs not in ([0, 1], [], [2]):
+                            continue
+                        first = raw("settings", sid, win=win, revs=revs)
+                        steps = [{"do": "open"}, first, dl("s2c"),
+                                 cop(1, "invoke", shape="unary", n=9), {"do": "drain"},
+                                 raw("hdr", 1), dl("s2c")] + sum(([f, dl("s2c")] for f in data_frames(1, 1, "s", 0, 8)), []) \
+                            + [raw("close", 1, code=0), dl("s2c"), raw("wu", 1, len=65536), dl("s2c"), {"do": "drain"}]
+                        out.append({"name": "neg-settings-%s-%s-revs%s-win%d-sid%d" % (d, "clinofc" if clinofc else "clifc", "".join(map(str, revs)) or "none", win, sid),
+                                    "cfg": {"dir": d, "rawSrv": "neg", "cliNoFC": clinofc}, "steps": steps, "meta": {"family": "neg"}})
+            # wrong first frame, missing settings
+            for fname, first in (("hdr", [raw("hdr", 1), dl("s2c")]), ("msg", [raw("msg", -1, size=3, len=3), dl("s2c")]),
+                                 ("junk", [raw("junk", -1), dl("s2c")]), ("missing", [{"do": "rawend", "code": 0}]),
+                                 ("missing-err", [{"do": "rawend", "code": 14, "msg": "gone"}])):
+                steps = [{"do": "open"}] + copy.deepcopy(first) + [cop(1, "invoke", shape="unary", n=9), {"do": "drain"}]
+                out.append({"name": "neg-first-%s-%s-%s" % (d, "clinofc" if clinofc else "clifc", fname),
+                            "cfg": {"dir": d, "rawSrv": "neg", "cliNoFC": clinofc}, "steps": steps, "meta": {"family": "neg"}})
     return out
